@@ -82,10 +82,9 @@ pub fn check_value(v: &RVal, rec: &mut Rec) -> Verdict {
         let _ = serde_json::to_value(&hv);
     }));
     try_call!(call("Value::to_string", v, || {
-        // `to_string` panics if Display returns an error; format through write! instead so an Err is tolerated
-        use std::fmt::Write;
-        let mut s = String::new();
-        let _ = write!(s, "{hv}");
+        // asking for display text: `to_string()` panics when Display returns an error, which is a panic to the caller
+        let _ = hv.to_string().len();
+        let _ = format!("{hv}").len();
     }));
     // typed ToZinc / Serialize
     match &hv {
